@@ -65,6 +65,47 @@ fn render(report: &Report, files: &FileLibrary) -> Result<String, String> {
     }
 }
 
+/// What the terminal has to show for a report, built WITHOUT `Report::to_diagnostic`: severity, message,
+/// every primary and every secondary label with its text, the report's notes, the documentation URL, and
+/// in verbose mode the report id in the header and the `--allow ID` hint (fourth audit: the body of a
+/// displayed diagnostic was read by no check).  Rendered with the configuration writers.rs uses.
+fn expected_render(report: &Report, files: &FileLibrary, verbose: bool) -> Option<String> {
+    use codespan_reporting::diagnostic::{Diagnostic, Label, LabelStyle, Severity};
+    let severity = match report.category().to_string().as_str() {
+        "error" => Severity::Error,
+        "warning" => Severity::Warning,
+        _ => Severity::Note,
+    };
+    let mut labels = Vec::new();
+    for (style, list) in
+        [(LabelStyle::Primary, report.primary()), (LabelStyle::Secondary, report.secondary())]
+    {
+        for l in list.iter() {
+            labels.push(Label::new(style, l.file_id, l.range.clone()).with_message(l.message.clone()));
+        }
+    }
+    let mut notes: Vec<String> = report.notes().iter().map(|n| n.to_string()).collect();
+    if let Some(url) = report.code().url() {
+        notes.push(format!("For more details, see {url}."));
+    }
+    let mut diagnostic =
+        Diagnostic::new(severity).with_message(report.message().to_string()).with_labels(labels);
+    if verbose {
+        notes.push(format!("To ignore this type of result, use `--allow {}`.", report.id()));
+        diagnostic = diagnostic.with_code(report.id());
+    }
+    let diagnostic = diagnostic.with_notes(notes);
+    let mut config = term::Config::default();
+    config.styles.header_help.set_intense(false);
+    config.styles.header_error.set_intense(false);
+    config.styles.header_warning.set_intense(false);
+    let mut buffer = NoColor::new(Vec::new());
+    match guarded(|| term::emit(&mut buffer, &config, files.to_storage(), &diagnostic)) {
+        Some(Ok(())) => Some(String::from_utf8_lossy(buffer.get_ref()).to_string()),
+        _ => None,
+    }
+}
+
 fn report_json(stage: &str, report: &Report, files: &FileLibrary) -> Value {
     let (text, error) = match render(report, files) {
         Ok(t) => (Some(t), None),
@@ -80,6 +121,8 @@ fn report_json(stage: &str, report: &Report, files: &FileLibrary) -> Value {
         "pfiles": report.primary_file_ids(),
         "render": text,
         "render_error": error,
+        "expect_verbose": expected_render(report, files, true),
+        "expect_plain": expected_render(report, files, false),
     })
 }
 
